@@ -186,17 +186,17 @@ def norm_scalar(x):
     return x
 
 
-def num_close(a, b, rtol):
+def num_close(a, b, rtol, atol=0.0):
     if a == b:
         return True
     if a != a and b != b:
         return True
-    if rtol <= 0:
+    if rtol <= 0 and atol <= 0:
         return False
-    return abs(a - b) <= rtol * max(abs(a), abs(b))
+    return abs(a - b) <= max(rtol * max(abs(a), abs(b)), atol)
 
 
-def pdiff(a, b, rtol=0.0, path="", out=None, limit=8):
+def pdiff(a, b, rtol=0.0, path="", out=None, limit=8, atol=0.0):
     """differences between two projections; returns list of (path, a, b). Dict key order is irrelevant."""
     if out is None:
         out = []
@@ -209,7 +209,7 @@ def pdiff(a, b, rtol=0.0, path="", out=None, limit=8):
             elif k not in b:
                 out.append((path + "/" + str(k), _short(a[k]), "<absent>"))
             else:
-                pdiff(a[k], b[k], rtol, path + "/" + str(k), out, limit)
+                pdiff(a[k], b[k], rtol, path + "/" + str(k), out, limit, atol)
             if len(out) >= limit:
                 break
         return out
@@ -222,7 +222,7 @@ def pdiff(a, b, rtol=0.0, path="", out=None, limit=8):
             out.append((path + "#len", _short(a), _short(b)))
             return out
         for i, (x, y) in enumerate(zip(a, b)):
-            pdiff(x, y, rtol, path + "[%d]" % i, out, limit)
+            pdiff(x, y, rtol, path + "[%d]" % i, out, limit, atol)
         return out
     ea, eb = is_empty(a), is_empty(b)
     if ea or eb:
@@ -230,7 +230,7 @@ def pdiff(a, b, rtol=0.0, path="", out=None, limit=8):
             out.append((path, _short(a), _short(b)))
         return out
     if isinstance(a, (int, float, np.floating, np.integer)) and isinstance(b, (int, float, np.floating, np.integer)) and not isinstance(a, bool) and not isinstance(b, bool):
-        if not num_close(float(a), float(b), rtol):
+        if not num_close(float(a), float(b), rtol, atol):
             out.append((path, repr(a), repr(b)))
         return out
     if a != b:
